@@ -138,8 +138,9 @@ OtherJustified == (Final(st) /\ st.out = "other") => OtherPossible(st.g)
 RunFnAgrees == st.out = "init" => (LET r == ImplRun(st.g) IN Final(r) /\ r.steps <= 2 + Len(st.g.refs) + 2 * Cardinality(st.g.files))
 
 (* ---- case export ---- *)
-Cases == LET G == SetToSeq(GraphIds) IN
-  [i \in 1..Len(G) |-> LET g == GraphOf(G[i][1], G[i][2]) IN
-     [id |-> i, files |-> Fams[G[i][1]].files, entry |-> g.entry, refs |-> g.refs]]
+\* (a top-level definition: TLC evaluates it once; a LET here would be re-evaluated per element)
+GraphSeq == SetToSeq(GraphIds)
+Cases == [i \in 1..Len(GraphSeq) |-> LET g == GraphOf(GraphSeq[i][1], GraphSeq[i][2]) IN
+            [id |-> i, files |-> Fams[GraphSeq[i][1]].files, entry |-> g.entry, refs |-> g.refs]]
 ASSUME ndJsonSerialize("cases.ndjson", Cases)
 =============================================================================
